@@ -3,6 +3,8 @@
     * `eqLoop_spec`: from any reachable cursor the loop decides equality of the remaining atom streams
     * `eq_atoms`: `eq a b = ok (atoms a = atoms b)`
     * `norm_eq_iff_atoms_eq`: the normal form and the atom stream carry the same information
+    * rendering: specification-level definitions (`partBytes`, `partEv`, `feed`) and the lemmas behind `render_spec`,
+      `render_any_writer`, `render_recorded`; conversions are identities; first-wins lookup
 -/
 import EmitModel.Model.Template
 namespace EmitModel.Template
@@ -287,5 +289,175 @@ theorem norm_eq_iff_atoms_eq (a b : List Part) : norm a = norm b ↔ atoms a = a
   constructor
   · intro h; rw [← ungroup_norm a, ← ungroup_norm b, h]
   · intro h; rw [← group_atoms a, ← group_atoms b, h]
+
+/-! ### Rendering -/
+open EmitModel.Template
+
+/-- What one part contributes to the default rendering. -/
+def partBytes (tbl : Nat → Val → List UInt8) (props : List (List UInt8 × Val)) : Part → List UInt8
+  | .text t => t
+  | .hole l f =>
+    match lookupFirst l props with
+    | some v => (match f with | some f => tbl f v | none => v.display)
+    | none => [0x7b] ++ l ++ [0x7d]
+
+theorem write_string (tbl : Nat → Val → List UInt8) (props : List (List UInt8 × Val)) (p : Part) (s : List UInt8) :
+    p.write (stringWriter tbl) props s = (s ++ partBytes tbl props p, true) := by
+  cases p with
+  | text t => rfl
+  | hole l f =>
+    simp only [Part.write, partBytes]
+    cases lookupFirst l props with
+    | none => simp [stringWriter]
+    | some v => cases f <;> rfl
+
+theorem render_spec (tbl : Nat → Val → List UInt8) (props : List (List UInt8 × Val)) (parts : List Part)
+    (s : List UInt8) :
+    render (stringWriter tbl) props parts s = (s ++ (parts.map (partBytes tbl props)).flatten, true) := by
+  induction parts generalizing s with
+  | nil => simp [render]
+  | cons p ps ih => simp [render, write_string, ih]
+
+/-- The callback a part triggers depends on the part and the properties only. -/
+def partEv (props : List (List UInt8 × Val)) : Part → Ev
+  | .text t => .text t
+  | .hole l f =>
+    match lookupFirst l props with
+    | some v => (match f with | some f => .holeFmt l v f | none => .holeValue l v)
+    | none => .holeLabel l
+
+def Writer.handle {σ : Type} (w : Writer σ) (s : σ) : Ev → σ × Bool
+  | .text t => w.writeText s t
+  | .holeValue l v => w.writeHoleValue s l v
+  | .holeFmt l v f => w.writeHoleFmt s l v f
+  | .holeLabel l => w.writeHoleLabel s l
+
+/-- Feed callbacks to a writer in order, stopping at the first one that fails. -/
+def feed {σ : Type} (w : Writer σ) : List Ev → σ → σ × Bool
+  | [], s => (s, true)
+  | e :: es, s =>
+    match w.handle s e with
+    | (s', true) => feed w es s'
+    | (s', false) => (s', false)
+
+theorem render_any_writer {σ : Type} (w : Writer σ) (props : List (List UInt8 × Val)) (parts : List Part) (s : σ) :
+    render w props parts s = feed w (parts.map (partEv props)) s := by
+  induction parts generalizing s with
+  | nil => rfl
+  | cons p ps ih =>
+    have h : p.write w props s = w.handle s (partEv props p) := by
+      cases p with
+      | text t => rfl
+      | hole l f =>
+        simp only [Part.write, partEv]
+        cases lookupFirst l props with
+        | none => rfl
+        | some v => cases f <;> rfl
+    simp only [render, List.map_cons, feed, h]
+    split <;> simp_all
+
+theorem handle_rec_ok (failAt : Option Nat) (pre : List Ev) (e : Ev) (h : failAt ≠ some pre.length) :
+    (recWriter failAt).handle pre e = (pre ++ [e], true) := by
+  cases e <;> simp [Writer.handle, recWriter, h]
+
+theorem handle_rec_fail (pre : List Ev) (e : Ev) :
+    (recWriter (some pre.length)).handle pre e = (pre, false) := by
+  cases e <;> simp [Writer.handle, recWriter]
+
+theorem feed_rec_none (evs pre : List Ev) : feed (recWriter none) evs pre = (pre ++ evs, true) := by
+  induction evs generalizing pre with
+  | nil => simp [feed]
+  | cons e es ih => simp [feed, handle_rec_ok none pre e (by simp), ih]
+
+theorem feed_rec_some (k : Nat) (evs pre : List Ev) (hp : pre.length ≤ k) :
+    feed (recWriter (some k)) evs pre = (pre ++ evs.take (k - pre.length), decide (pre.length + evs.length ≤ k)) := by
+  induction evs generalizing pre with
+  | nil => simp [feed, hp]
+  | cons e es ih =>
+    by_cases hk : k = pre.length
+    · subst hk
+      simp [feed, handle_rec_fail]
+    · have hlt : (pre ++ [e]).length ≤ k := by simp; omega
+      have h3 : k - pre.length = (k - (pre ++ [e]).length) + 1 := by simp; omega
+      rw [feed, handle_rec_ok (some k) pre e (by simpa using hk)]
+      simp only []
+      rw [ih _ hlt, h3, List.take_succ_cons]
+      simp only [List.append_assoc, List.singleton_append, List.length_append, List.length_cons, List.length_nil]
+      have : (pre.length + (0 + 1) + es.length ≤ k) ↔ (pre.length + (es.length + 1) ≤ k) := by omega
+      simp only [this]
+
+/-- The recording writer sees exactly the callbacks of the parts, in order; when it fails on callback `k`, rendering
+    stops there: it has seen the first `k` callbacks and `Render::write` returns `Err` iff there was a callback `k`. -/
+theorem render_recorded (props : List (List UInt8 × Val)) (parts : List Part) (failAt : Option Nat) :
+    render (recWriter failAt) props parts [] =
+      match failAt with
+      | none => (parts.map (partEv props), true)
+      | some k => ((parts.map (partEv props)).take k, decide (parts.length ≤ k)) := by
+  rw [render_any_writer]
+  cases failAt with
+  | none => simp [feed_rec_none]
+  | some k => simp [feed_rec_some]
+
+
+/-! ### Conversions, lookup, formatter-free templates -/
+
+theorem toOwned_id (ps : List Part) : toOwned ps = ps := by
+  induction ps with
+  | nil => rfl
+  | cons p ps ih => cases p <;> simp_all [toOwned, Part.toOwned]
+
+theorem byRef_id (ps : List Part) : byRef ps = ps := by
+  induction ps with
+  | nil => rfl
+  | cons p ps ih => cases p <;> simp_all [byRef, Part.byRef]
+
+theorem lookupFirst_none_iff (l : List UInt8) (props : List (List UInt8 × Val)) :
+    lookupFirst l props = none ↔ ∀ kv ∈ props, kv.1 ≠ l := by
+  induction props with
+  | nil => simp [lookupFirst]
+  | cons kv props ih =>
+    obtain ⟨k, v⟩ := kv
+    by_cases h : k = l <;> simp [lookupFirst, h, ih]
+
+theorem lookupFirst_first (l : List UInt8) (pre post : List (List UInt8 × Val)) (v : Val)
+    (h : ∀ kv ∈ pre, kv.1 ≠ l) : lookupFirst l (pre ++ (l, v) :: post) = some v := by
+  induction pre with
+  | nil => simp [lookupFirst]
+  | cons kv pre ih =>
+    obtain ⟨k, w⟩ := kv
+    have hk : k ≠ l := h (k, w) (by simp)
+    simp only [List.cons_append, lookupFirst, hk, if_false]
+    exact ih (fun kv hkv => h kv (by simp [hkv]))
+
+/-- No hole carries a formatter. -/
+def NoFmt (ps : List Part) : Prop := ∀ l f, Part.hole l f ∈ ps → f = none
+
+def atomBytes (props : List (List UInt8 × Val)) : Atom → List UInt8
+  | .byte b => [b]
+  | .hole l => match lookupFirst l props with
+    | some v => v.display
+    | none => [0x7b] ++ l ++ [0x7d]
+
+theorem flatten_bytes (props : List (List UInt8 × Val)) (t : List UInt8) :
+    ((t.map Atom.byte).map (atomBytes props)).flatten = t := by
+  induction t with
+  | nil => rfl
+  | cons c t ih => simp_all [atomBytes]
+
+theorem flatten_partBytes_of_noFmt (tbl : Nat → Val → List UInt8) (props : List (List UInt8 × Val)) (ps : List Part)
+    (h : NoFmt ps) : (ps.map (partBytes tbl props)).flatten = ((atoms ps).map (atomBytes props)).flatten := by
+  induction ps with
+  | nil => rfl
+  | cons p ps ih =>
+    have h' : NoFmt ps := fun l f hm => h l f (by simp [hm])
+    cases p with
+    | text t =>
+      simp only [List.map_cons, List.flatten_cons, partBytes, atoms, List.map_append, List.flatten_append, ih h',
+        flatten_bytes]
+    | hole l f =>
+      have : f = none := h l f (by simp)
+      subst this
+      simp only [List.map_cons, List.flatten_cons, partBytes, atoms, atomBytes, ih h']
+
 
 end EmitModel.Template
